@@ -34,6 +34,11 @@ QUICK = [
     _c('uncoupled_week_anchor_q', 'uncoupled', dict(T=4, freq='d', shift_hours=96), 'W'),
     _c('uncoupled_orderbook', 'uncoupled', dict(T=4, orderbook=((0, 2, 2.0), (2, 3, -1.5), (3, 4, 1.0))), '2h'),
     _c('uncoupled_take_in_interval', 'uncoupled', dict(T=4, take=(2, 4)), '2h'),
+    # a take period spanning several intervals is prorated per interval: every split-feasible dispatch is feasible for the whole problem
+    # capacities as time series (symbolic sign pattern: one- or two-directional per interval / over the whole horizon), extra costs, discounting
+    _c('caps_timeseries_discounted', 'caps_ts', dict(T=2, wacc=True), 'h'),
+    _c('take_spans_intervals', 'uncoupled', dict(T=4, take=(1, 4)), '2h', True),
+    _c('take_spans_intervals_asset_with_own_dates', 'uncoupled', dict(T=4, take=(0, 4), own_dates=True), '2h', True),
     _c('orderbook_last_trailing', 'orderbook', dict(T=4, storage=False, ob_last=True, orders=((0, 1, 2.0), (2, 4, -1.5), (3, 4, 1.0))), '2h'),
     # calendar-aware interval boundaries: a 23-hour day in a zone-aware grid, a month boundary
     _c('uncoupled_dst_day_split_by_day', 'uncoupled', dict(T=4, freq=('8h', '2021-03-28 00:00', '2021-03-29 09:00', 'CET'), wacc=True), 'd'),
@@ -50,7 +55,7 @@ THOROUGH = QUICK + [
     _c('storage_window_partial', 'contract_storage', dict(T=6, freq='8h', win_s=(1, 5), storage_kw=dict(start_eq_end=True)), 'd', True),
 ]
 BOUNDS = dict(quick='%s; 2-3 intervals, T<=6' % [c[0] for c in QUICK], thorough='%s' % [c[0] for c in THOROUGH])
-OUTSIDE = ['order books / take periods spanning several intervals (they couple the intervals; only <= could hold)', 'fix_time_window in split problems']
+OUTSIDE = ['order books spanning several intervals (they couple the intervals)', 'equality for take periods spanning several intervals (prorated per interval: split <= unsplit only)']
 ASSUMPTIONS = ['a storage couples intervals through its level only; with start level = end level every interval is a feasible stand-alone cycle']
 
 
@@ -190,7 +195,7 @@ def run_case(case_id, tier, seed, shape, kw, split, coupled):
         PS = ProductLP(sc)
         PU = lpsem.LP(sc2.op)
         x = PS.mk_x('x')
-        terms, missing = embed_lp.phi_by_keys(PS, x, PU)
+        terms, missing = embed_lp.phi_contract_forms(PS, x, PU)
         if missing:
             rec.obligations.append(dict(name=P + '/keys', verdict='sat', secs=0, form='struct'))
             rec.candidates.append(dict(name=P + '/keys', env={}, info=dict(kind='keys', missing=missing), form='struct'))
@@ -199,7 +204,8 @@ def run_case(case_id, tier, seed, shape, kw, split, coupled):
                        info=dict(kind='emb', dir='split2unsplit', coupled=coupled))
         if not coupled:
             y = PU.mk_x('y')
-            terms2, missing2 = embed_lp.phi_by_keys(PU, y, PS, default=z3.RealVal(0))
+            terms2, missing2 = embed_lp.phi_contract_forms(PU, y, PS)
+            terms2 = [z3.RealVal(0) if t_ is None else t_ for t_ in terms2]
             embed_lp.embed(rec, P + '/unsplit2split', base, PU, y, PS, terms2, rel='==', info=dict(kind='emb', dir='unsplit2split', coupled=coupled))
         if not validated:
             validated = scen.validation_request(rec, sc, D, path, seed)
@@ -223,9 +229,9 @@ def observe(case, kwargs, env, rq):
             try:
                 pp = product_problem(sc)
                 if info.get('dir') == 'split2unsplit':
-                    o['nums'] = embed_lp.replay_keys(pp, sc2.op, env, 'x')
+                    o['nums'] = embed_lp.replay_forms(pp, sc2.op, env, 'x')
                 else:
-                    o['nums'] = embed_lp.replay_keys(sc2.op, pp, env, 'y')
+                    o['nums'] = embed_lp.replay_forms(sc2.op, pp, env, 'y')
             except Exception as e:  # noqa: BLE001 - numbers are optional extra evidence
                 o['nums_error'] = str(e)
         o['T'] = sc.sh.tg.T
